@@ -21,6 +21,16 @@ func genC16(r *Rnd, t Tier) *Case {
 	c := genC01(r, t)
 	sc := c.Sc
 	sc.Family = "c16"
+	if r.P(0.3) {
+		// only a subset of the executor-level listeners is registered
+		for ci := range sc.Clients {
+			for oi := range sc.Clients[ci].Ops {
+				if op := &sc.Clients[ci].Ops[oi]; op.Kind == "exec" {
+					op.NoExecListeners = r.Range(1, 7)
+				}
+			}
+		}
+	}
 	for i := range sc.Policies {
 		if sc.Policies[i].Kind == KBreaker && r.P(0.4) {
 			sc.Policies[i].NoListeners = r.Intn(8) // some specific listeners absent; the generic one stays
@@ -96,7 +106,25 @@ func checkC16(c *checkCtx) {
 		}
 		// executor-level events
 		succ, failn, done := v.listeners(-1, LExecSuccess), v.listeners(-1, LExecFailure), v.listeners(-1, LExecDone)
-		if len(done) != 1 || len(succ)+len(failn) != 1 {
+		if mask := v.Op.NoExecListeners; mask != 0 {
+			// only some of the executor's listeners are registered: each registered one fires exactly when it
+			// would have fired with all of them registered, judged by the verdict the outermost layer returned
+			if v.Root.Exit == nil {
+				continue
+			}
+			c.cov("c16.executor_events_partial_registration")
+			success := v.Root.Exit.Flags&FSuccessAll != 0
+			want := func(bit int, applies bool) int {
+				if mask&bit == 0 && applies {
+					return 1
+				}
+				return 0
+			}
+			if ws, wf, wd := want(1, success), want(2, !success), want(4, true); len(succ) != ws || len(failn) != wf || len(done) != wd {
+				fail(v, "executor", "count-partial", fmt.Sprintf("with OnSuccess registered=%v OnFailure registered=%v OnDone registered=%v and an execution that ended %s (%s): OnSuccess=%d OnFailure=%d OnDone=%d, expected %d/%d/%d",
+					mask&1 == 0, mask&2 == 0, mask&4 == 0, map[bool]string{true: "successfully", false: "in failure"}[success], outcomeStr(v.Root.Exit), len(succ), len(failn), len(done), ws, wf, wd))
+			}
+		} else if len(done) != 1 || len(succ)+len(failn) != 1 {
 			fail(v, "executor", "count", fmt.Sprintf("OnDone=%d OnSuccess=%d OnFailure=%d; every execution produces exactly one OnDone and exactly one of OnSuccess/OnFailure", len(done), len(succ), len(failn)))
 		} else {
 			c.cov("c16.executor_events_checked")
@@ -535,6 +563,29 @@ func checkC17(c *checkCtx) {
 					if !sameOutcome(e.LastVal, e.LastErr, prev.Exit.Val, prev.Exit.Err) {
 						c.fail("C17.last", "listener", fmt.Sprintf("exec %d: %s at position %d saw LastResult/LastError (%s, %s) but the outcome being handled is %s", v.ID, listenerNames[l], n.Pos, fmtVal(e.LastVal), fmtErr(e.LastErr), outcomeStr(prev.Exit)))
 					}
+				}
+			}
+			// so do the delay functions of a retry policy and of a circuit breaker (the breaker consults
+			// its function when the outcome it has just recorded opens it)
+			if p.Kind == KFallback {
+				continue
+			}
+			for _, e := range v.Events {
+				if e.Kind != EvDelayFn || e.Pos != v.Stack[n.Pos] || e.Task != n.Task || e.Seq < n.Enter.Seq || e.Seq > n.Exit.Seq || e.Flags&FHasExec == 0 || inChildCall(n, e.Seq) {
+					continue
+				}
+				var prev *Node
+				for _, ch := range n.Children {
+					if ch.Exit != nil && ch.Exit.Seq < e.Seq {
+						prev = ch
+					}
+				}
+				if prev == nil || canceledAt(prev.Exit) || canceledAt(e) {
+					continue
+				}
+				c.cov("c17.delayfn_last_checked")
+				if !sameOutcome(e.LastVal, e.LastErr, prev.Exit.Val, prev.Exit.Err) {
+					c.fail("C17.last", "delay-function", fmt.Sprintf("exec %d: the delay function of the %s at position %d saw LastResult/LastError (%s, %s) but the outcome being handled is %s", v.ID, p.Kind, n.Pos, fmtVal(e.LastVal), fmtErr(e.LastErr), outcomeStr(prev.Exit)))
 				}
 			}
 		}
